@@ -75,8 +75,6 @@ let rec int_of_bits = function [] -> 0 | b :: r -> (if b then 1 else 0) + 2 * in
 let string_of_bytes l = String.concat "" (List.map (fun x -> String.make 1 (Char.chr (int_of_bits (bits_of_n x) land 255))) l)
 
 (* ---- script ---- *)
-let gp_none = mEMATTR_GP_NONE
-let os_none = mEMATTR_OS_NONE
 
 exception Badcase
 
